@@ -21,9 +21,10 @@ import (
 // recStream replaces crypto/rand.Reader: a position-unique keystream whose every
 // hand-out is logged (offset, length, sequence number) under a mutex.
 type recStream struct {
-	mu    sync.Mutex
-	seed  uint64
-	mode  int // 0 keystream, 1 all-zero, 2 all-0xFF
+	mu   sync.Mutex
+	seed uint64
+	mode int // 0 keystream, 1 all-zero, 2 all-0xFF, 3 base32 letters, 4 hex digits, 5 decimal digits, 6 printable ASCII, 7 constant 'A'
+
 	next  int64
 	seq   int64
 	log   []handout
@@ -60,6 +61,16 @@ func (s *recStream) byteAt(pos int64) byte {
 		return 0
 	case 2:
 		return 0xff
+	case 3: // only base32 letters
+		return "ABCDEFGHIJKLMNOPQRSTUVWXYZ234567"[(uint64(pos)*2654435761+s.seed)>>7%32]
+	case 4: // only hex digits
+		return "0123456789abcdef"[(uint64(pos)*40503+s.seed)>>5%16]
+	case 5: // only decimal digits
+		return "0123456789"[(uint64(pos)*7919+s.seed)>>3%10]
+	case 6: // printable ASCII
+		return byte(0x20 + (uint64(pos)*104729+s.seed)>>4%95)
+	case 7:
+		return 'A'
 	}
 	blk := pos / 32
 	b, ok := s.cache[blk]
@@ -213,20 +224,6 @@ func runRSHistory(c *Ctx, h c08History) {
 				handed += ho.n
 			}
 			r.Count("source_bytes_handed_out_in_call_windows", int(handed))
-			if h.Mode != 0 {
-				// constant streams: content is not position-unique; the output must still be the stream
-				want := st.byteAt(0)
-				for _, b := range d {
-					if b != want {
-						viol("not-from-source", "the secret is not the bytes the source delivered (constant stream)", k, fmt.Sprintf("%d x %02x", size, want), hexs(d))
-						break
-					}
-				}
-				if handed < int64(size) {
-					viol("not-from-source", "fewer bytes were requested from the source than the secret contains", k, fmt.Sprint(">= ", size), fmt.Sprint(handed))
-				}
-				continue
-			}
 			// the bytes this call received: hand-outs made to the calling goroutine inside the call window, in order.
 			// (Attribution by goroutine avoids judging a secret against bytes delivered to concurrent calls; if the
 			// library read through another goroutine the whole window is used instead.)
@@ -245,6 +242,27 @@ func runRSHistory(c *Ctx, h c08History) {
 					}
 				}
 				r.Count("calls_judged_against_whole_window", 1)
+			}
+			if len(ownPos) == len(d) {
+				// the normal case: the call received exactly as many bytes as the secret holds — they must be those bytes, in order
+				for i := range d {
+					if flat[ownPos[i]] != d[i] {
+						viol("not-from-source", "the secret is not the bytes the random source delivered to this call, unmodified and in order", k, hexs(func() []byte {
+							w := make([]byte, len(d))
+							for j := range w {
+								w[j] = flat[ownPos[j]]
+							}
+							return w
+						}()), hexs(d))
+						break
+					}
+				}
+				r.Count("secrets_compared_exactly_with_delivered_bytes", 1)
+				continue
+			}
+			if h.Mode != 0 {
+				viol("not-from-source", "the call did not receive exactly as many source bytes as the secret holds (restricted-alphabet stream: segments cannot be matched by content)", k, fmt.Sprint(len(d), " bytes"), fmt.Sprint(len(ownPos), " bytes received"))
+				continue
 			}
 			// decompose d into in-order segments (>= 4 bytes, or the remainder) of the received bytes
 			pos, from := 0, 0
@@ -338,6 +356,10 @@ func init() {
 				hs = append(hs, c08History{Seed: rng.U64(), Mode: 0, Goroutines: 1, Calls: 120, MaxRead: mr})
 			}
 			hs = append(hs, c08History{Seed: rng.U64(), Mode: 2, Goroutines: 1, Calls: 60, MaxRead: 5})
+			// sources whose bytes all lie in a restricted alphabet (still legal output of a random source)
+			for mode := 3; mode <= 7; mode++ {
+				hs = append(hs, c08History{Seed: rng.U64(), Mode: mode, Goroutines: 1, Calls: 150}, c08History{Seed: rng.U64(), Mode: mode, Goroutines: 1, Calls: 60, MaxRead: 11})
+			}
 			for _, h := range hs {
 				runRSHistory(c, h)
 			}
